@@ -128,6 +128,26 @@ def shard_comments(shard):
     return st.result([drv])
 
 
+def shard_long(shard):
+    """literals whose decoded length sits around the growth steps of the scanner's scratch buffer (32, 64, 128, ...), alone and
+    after earlier strings, plain and with an escape / a substitution inside"""
+    lengths, deadline = shard
+    drv = get_driver('asan')
+    drv.define_schema('L1', SCH.spec())
+    st = ShardStats('long literals')
+    T = templates()
+    buf = []
+    for n in lengths:
+        for body in (b'w' * n, b'w' * (n - 1) + b'\\n', b'${V}' + b'w' * (n - 3), b'w' * (n - 2) + b'\\x41' + b'z'):
+            for t in ('dq', 'sq', 'dq2', 'dql', 'sql'):
+                if t.startswith('sq') and (b'${' in body or b'\\' in body):
+                    continue
+                pre, post = T[t]
+                buf.append((pre + body + post, b'val'))
+    run_cases(st, drv, buf)
+    return st.result([drv])
+
+
 def ext_classes():
     """CLASSES plus one representative of every equivalence class of the generated scanner that CLASSES misses (bytes of one
     class are indistinguishable to the scanner in every start condition; recomputed from the build, so a scanner that starts
@@ -177,6 +197,8 @@ def main():
             shards.append((t, ENVSYM, 1, 3, (a,), ENVS, dl))
     engine.phase(ck, 'substitution forms ${V} ${V:-d} ${U:-d} ... as symbols, sequences <= 3, 7 templates, 4 environments', shard_product, shards,
                  alphabet=len(ENVSYM))
+    steps = [n + d for n in (32, 64, 96, 128, 256, 1024) for d in (-2, -1, 0, 1, 2)]
+    engine.phase(ck, 'literals whose decoded length is around a growth step of the scratch buffer', shard_long, [(list(c), dl) for c in engine.chunks(steps, 3)], lengths=len(steps))
     # bound 2: length 4, dq and sq, all four environments
     shards = []
     for t in ('dq', 'sq'):
